@@ -32,7 +32,11 @@ LEVEL_TEXT = {
     "C10": "All operations of all panels are executed and every SPI transfer is examined; buffer lengths straddling the 4096-byte chunk boundary are swept in both write modes with byte-exact payload comparison.",
     "C11": "new, wake_up (several contexts) and internally re-initialising operations are executed for all panels under four idle-delay settings and the RST/delay/SPI interleaving is checked on the event log.",
     "C12": "Every buffer-lending history of the C02 bound is executed twice (buffers kept vs scribbled+freed+reallocated) and the wire traces compared; the scribbling run is repeated under AddressSanitizer for all panels at full frame sizes and under Miri for the unsafe driver and the smallest panels.",
+    "C03": "The real set_pixel / draw_iter of every shipped Display alias and of run-time sized buffers is executed for border pixels, a lattice, coordinate extremes and (thorough) every pixel of every rotation and colour; after every call the whole buffer is compared with an independent reference frame-buffer model, and VarDisplay tails are guarded by sentinels. The small-geometry pass is repeated under Miri in the thorough tier.",
+    "C13": "Every shipped alias and every VarDisplay geometry with w,h in 0..=64 (three colour types, four slice lengths) is checked against an independent sizing formula, including halves by pointer arithmetic and drawability of the last row/column; buffer_len is compared exhaustively for 0..=2048 squared in the thorough tier.",
+    "C14": "Every public colour conversion and encoding is executed over its complete finite domain (bytes, nibbles, pairs, raw values, bitmask positions, all Rgb565/Rgb555 values, a 2^18 lattice / all 2^24 Rgb888 values) and compared with independent tables; panics are caught and counted.",
     "C15": "Full-frame and partial writes over window grids concentrated at the 648-column / 492-row seams, with 1-row, 3-row and full pixel buffers on both planes, are demultiplexed per chip from the CS/DC levels sampled at each bus write and compared with an independent tiling oracle; all 32 mode configurations are compared with the datasheet packing table.",
+    "C16": "Rect::intersect / is_empty / sub_offset are executed for all pairs of rectangles with coordinates and sizes in 0..=6 (quick) / 0..=12 (thorough, 8.2e8 pairs) and seeded rectangles up to the u32 range, and compared with a per-axis pixel-set oracle.",
     "C17": "All sequences up to length 3 (quick) / 4 (thorough) over {select full, select quick, reload, sleep+wake, display, set_refresh} are executed in all three feature builds and every LUT register upload is compared with the measured reference upload of the mode last selected.",
     "C18": "The constructor and every operation (fresh and after settings-changing predecessors; all length-2 histories in the thorough tier) are executed in all three feature builds and every decoded command is checked against datasheet opcode sets, block arities and the panel geometry.",
 }
@@ -48,13 +52,16 @@ LEVEL_NOTE = {
     "C10": "Trusted: HAL mock samples D/C at each transfer; opcode tables in proto.rs. Built for linux target only.",
     "C11": "Trusted: event order in the HAL log equals call order (single-threaded). Durations are the driver's explicit delay calls, not wall time.",
     "C12": "Trusted: allocator reuse makes scribbled/freed buffers observable natively; ASan / Miri decide independently of reuse. Only executed histories are covered.",
+    "C03": "Trusted: the documented buffer layout (row-major, MSB first, padded rows, two equal planes for tricolour, even x in the high nibble for 4 bpp) as written down in the reference model.",
+    "C13": "Trusted: the sizing formula planes * rows * ceil(w*bpp/8).",
+    "C14": "Trusted: the documented encodings; 'brightness-nearest' is only decided where three brightness definitions agree outside a +-1/32 band around one half.",
     "C15": "Trusted: documented chip layout and X mirroring of the two upper chips; the sentinel window block for empty intersections is accepted as the documented off-screen window.",
+    "C16": "Trusted: the pixel-set semantics of a rectangle (x..x+w, y..y+h); precondition: right and bottom edges representable in u32.",
     "C17": "Trusted: LUT register opcodes per family; reference uploads are measured from the driver itself ([new; set_lut(Some(m))]).",
     "C18": "Trusted: opcode sets are the family union plus vendor extras (deliberately permissive); block arities and geometry are the sharp part.",
 }
 DESIGN_REF = {}
 
-CLAIMED = ["C01", "C02", "C04", "C05", "C06", "C07", "C08", "C09", "C10", "C11", "C12", "C15", "C17", "C18"]
+CLAIMED = ["C01", "C02", "C03", "C04", "C05", "C06", "C07", "C08", "C09", "C10", "C11", "C12", "C13", "C14", "C15", "C16", "C17", "C18"]
 
-_WIP = "monitor being finished in this round (reference-model monitors for the pure code, DESIGN.md section 5); will be claimed when its check is silent on the pinned tree or all alarms are triaged"
-NOT_APPLICABLE = {p: _WIP for p in ["C03", "C13", "C14", "C16"]}
+NOT_APPLICABLE = {}
